@@ -15,6 +15,8 @@ import (
 	"path/filepath"
 	"strings"
 	"sync"
+	"sync/atomic"
+	"time"
 
 	"github.com/flamego/flamego"
 	"github.com/flamego/flamego/verifharness/core"
@@ -41,6 +43,18 @@ type staticCase struct {
 
 func init() {
 	register(&Check{ID: "C16", Run: runC16, Replay: func(w *core.W, kind string, raw json.RawMessage) {
+		if kind == "burst" {
+			var bc burstCase
+			if err := json.Unmarshal(raw, &bc); err != nil {
+				w.R.Inconclusive("replay case does not decode: " + err.Error())
+				return
+			}
+			fx := newFixture()
+			defer fx.remove()
+			w.Begin("burst", &bc)
+			judgeBurst(w, fx, &bc)
+			return
+		}
 		if kind == "volatile" {
 			var vc volatileCase
 			if err := json.Unmarshal(raw, &vc); err != nil {
@@ -120,6 +134,18 @@ func newFixture() *fixture {
 	if err := os.Symlink("pub", filepath.Join(root, "public")); err != nil {
 		panic(err)
 	}
+	// every file and every directory has a modification time of its own (a directory's is years away from its files')
+	_ = filepath.Walk(fx.pub, func(p string, fi os.FileInfo, err error) error {
+		if err != nil {
+			return nil
+		}
+		t := time.Date(2001, 1, 1, 0, 0, 0, 0, time.UTC).Add(time.Duration(core.Hash64("mtime", p)%300000000) * time.Second)
+		if fi.IsDir() {
+			t = time.Date(1985, 1, 1, 0, 0, 0, 0, time.UTC).Add(time.Duration(core.Hash64("mtime", p)%100000000) * time.Second)
+		}
+		defer func() { _ = os.Chtimes(p, t, t) }() // after the walk has left it
+		return nil
+	})
 	for _, n := range c16DirNames {
 		if err := os.Symlink("pub", filepath.Join(root, n)); err != nil {
 			panic(err)
@@ -177,6 +203,7 @@ type staticOutcome struct {
 	loc     string
 	exact   bool   // false: only the safety predicates are judged (odd bytes)
 	denoted string // what the request path denotes in the served tree, before any index is looked up ("" if nothing)
+	modtime string // kind file: the modification time of the file that is served, as a Last-Modified value
 }
 
 // isIndexName: does the cleaned, slash-rooted name denote an index file (the index option may have several elements)?
@@ -256,6 +283,7 @@ func staticOracle(fx *fixture, c *staticCase) staticOutcome {
 		viaIndex = true
 	}
 	out.kind, out.body = "file", fx.files[target]
+	out.modtime = fi.ModTime().UTC().Format(http.TimeFormat)
 	if c.ETag && (c.INM == "match" || (c.INM == "formula" && !viaIndex)) {
 		out.kind, out.body = "not-modified", ""
 	}
@@ -337,6 +365,9 @@ func staticVerdict(fx *fixture, c *staticCase, want staticOutcome, o staticObs) 
 		}
 		if !c.ETag && o.hdr.Get("ETag") != "" {
 			return "ETag set although not configured"
+		}
+		if lm := o.hdr.Get("Last-Modified"); lm != "" && lm != want.modtime {
+			return fmt.Sprintf("Last-Modified %q is not the modification time of the file that was served (%q)", lm, want.modtime)
 		}
 	case "not-modified":
 		if o.body != "" {
@@ -626,6 +657,71 @@ func staticClass(fx *fixture, c *staticCase, want staticOutcome) string {
 	return "missing"
 }
 
+// burstCase: many clients ask for the same directory (served through its index file) at the same moment; the
+// file system lets none of them have the directory until Hold of them have asked for it (or a moment has
+// passed), so that they all stand between "directory opened" and "index opened" together. Every one of them is
+// answered with the index file. (C16: Static serves or stays silent - a request that never returns does neither.)
+type burstCase struct {
+	Clients int    `json:"clients"`
+	Hold    int    `json:"directory_opens_held_together"`
+	Path    string `json:"path"`
+	ETag    bool   `json:"etag,omitempty"`
+}
+
+type meetFS struct {
+	inner    http.FileSystem
+	need     int64
+	inflight int64
+}
+
+func (m *meetFS) Open(name string) (http.File, error) {
+	f, err := m.inner.Open(name)
+	if err != nil {
+		return nil, err
+	}
+	if fi, err := f.Stat(); err == nil && fi.IsDir() {
+		atomic.AddInt64(&m.inflight, 1)
+		for i := 0; i < 400 && atomic.LoadInt64(&m.inflight) < m.need; i++ {
+			time.Sleep(500 * time.Microsecond) // shapes the schedule only: at most 0.2 s
+		}
+	}
+	return f, nil
+}
+
+func judgeBurst(w *core.W, fx *fixture, c *burstCase) {
+	w.Eval()
+	f := flamego.NewWithLogger(io.Discard)
+	f.Use(flamego.Static(flamego.StaticOptions{FileSystem: &meetFS{inner: http.Dir(fx.pub), need: int64(c.Hold)}, SetETag: c.ETag}))
+	f.NotFound(func() (int, string) { return 418, "CHAIN" })
+	want := fx.files[filepath.Join(fx.pub, filepath.FromSlash(strings.Trim(c.Path, "/")), "index.html")]
+	type res struct {
+		status int
+		body   string
+		pan    interface{}
+	}
+	out := make([]res, c.Clients)
+	var wg sync.WaitGroup
+	for i := 0; i < c.Clients; i++ {
+		wg.Add(1)
+		go func(i int) {
+			defer wg.Done()
+			defer func() { out[i].pan = recover() }()
+			spy := &retSpy{h: http.Header{}}
+			f.ServeHTTP(spy, &http.Request{Method: "GET", URL: &url.URL{Path: c.Path}, Header: http.Header{}})
+			out[i].status, out[i].body = spy.status, string(spy.body)
+		}(i)
+	}
+	wg.Wait() // a client that is never answered shows as a case that does not return (supervised)
+	for i, o := range out {
+		if o.pan != nil || o.status != 200 || o.body != want {
+			w.Violate("static-burst", c, fmt.Sprintf("client %d of %d asking for %q at the same moment: panic=%v status=%d body=%q, want 200 with the directory's index file", i, c.Clients, c.Path, o.pan, o.status, clip(o.body)))
+			return
+		}
+	}
+	w.CountN("burst-clients-answered", c.Clients)
+	w.NonTrivial(core.Hash64("burst", fmt.Sprint(c.Clients, c.Hold, c.Path, c.ETag)), nil)
+}
+
 // volatileCase: the served tree changes between two requests of one instance (C16: whatever is sent is the
 // content of a file that is there).
 type volatileCase struct {
@@ -773,6 +869,18 @@ func runC16(r *core.Run) {
 		w.Begin("volatile", c)
 		judgeVolatile(w, fx, c)
 	})
+	// bursts of simultaneous directory requests, one burst at a time
+	ws := r.SerialSupervised()
+	for i := 0; i < r.N(6, 60); i++ {
+		rng := r.Rand("burst", i)
+		c := &burstCase{Clients: []int{96, 128, 160, 256, 300}[rng.Intn(5)], Path: []string{"/dir/", "/", "/deep/d2/"}[rng.Intn(3)], ETag: rng.Intn(2) == 0}
+		c.Hold = []int{c.Clients / 2, 64, 32, c.Clients, 100}[rng.Intn(5)]
+		ws.Begin("burst", c)
+		judgeBurst(ws, fx, c)
+	}
+	ws.Done()
+	ws.Merge()
+	r.GateCounter("burst-clients-answered", 500)
 	for _, k := range []string{"volatile:removed", "volatile:becomes-directory", "volatile:rewritten", "volatile:root-relinked"} {
 		r.GateCounter(k, 100)
 	}
